@@ -100,12 +100,20 @@ def M4.toList (m : M4) : List Int :=
   [m.r0.x, m.r0.y, m.r0.z, m.r0.w, m.r1.x, m.r1.y, m.r1.z, m.r1.w,
    m.r2.x, m.r2.y, m.r2.z, m.r2.w, m.r3.x, m.r3.y, m.r3.z, m.r3.w]
 
-/-- `np.diag([-1, 1, 1, 1])` -/
-def xflipM : M4 := ⟨⟨-1, 0, 0, 0⟩, ⟨0, 1, 0, 0⟩, ⟨0, 0, 1, 0⟩, ⟨0, 0, 0, 1⟩⟩
-/-- `from_111 = np.eye(4); from_111[:3, 3] = -1` (spm99analyze.py:326-327) -/
-def from111 : M4 := ⟨⟨1, 0, 0, -1⟩, ⟨0, 1, 0, -1⟩, ⟨0, 0, 1, -1⟩, ⟨0, 0, 0, 1⟩⟩
-/-- `to_111 = np.eye(4); to_111[:3, 3] = 1` (spm99analyze.py:296-297) -/
-def to111 : M4 := ⟨⟨1, 0, 0, 1⟩, ⟨0, 1, 0, 1⟩, ⟨0, 0, 1, 1⟩, ⟨0, 0, 0, 1⟩⟩
+/-- `np.diag([a, b, c, d])` -/
+def diag4 (d : List Int) : M4 :=
+  ⟨⟨d.getD 0 0, 0, 0, 0⟩, ⟨0, d.getD 1 0, 0, 0⟩, ⟨0, 0, d.getD 2 0, 0⟩, ⟨0, 0, 0, d.getD 3 0⟩⟩
+/-- `e = np.eye(4); e[:3, 3] = c` -/
+def shift4 (c : Int) : M4 := ⟨⟨1, 0, 0, c⟩, ⟨0, 1, 0, c⟩, ⟨0, 0, 1, c⟩, ⟨0, 0, 0, 1⟩⟩
+
+/-- `np.diag([-1, 1, 1, 1])` in `to_file_map` (spm99analyze.py:323); the list is REGENERATED from the source -/
+def xflipM : M4 := diag4 Gen.xflipDiagW
+/-- the same matrix as `from_file_map` spells it (spm99analyze.py:291) -/
+def xflipR : M4 := diag4 Gen.xflipDiagR
+/-- `from_111 = np.eye(4); from_111[:3, 3] = -1` (spm99analyze.py:326-327); the constant is regenerated -/
+def from111 : M4 := shift4 Gen.from111Shift
+/-- `to_111 = np.eye(4); to_111[:3, 3] = 1` (spm99analyze.py:296-297); the constant is regenerated -/
+def to111 : M4 := shift4 Gen.to111Shift
 
 /-- the `M` matrix of the `.mat` file (spm99analyze.py:322-328): optional x flip, then 1-based voxel origin -/
 def spmM (flip : Bool) (mat : M4) : M4 := (if flip then xflipM.mul mat else mat).mul from111
@@ -118,7 +126,7 @@ def spmMat (mat : M4) : M4 := mat.mul from111
 def loadMat (flip : Bool) (mat? M? : Option M4) : Option M4 :=
   match mat?, M? with
   | some m, _ => some (m.mul to111)
-  | none, some M => some ((if flip then xflipM.mul M else M).mul to111)
+  | none, some M => some ((if flip then xflipR.mul M else M).mul to111)
   | none, none => none
 
 /-- where `np.asanyarray(img.dataobj)` takes the data from -/
@@ -679,8 +687,9 @@ def gzStream (deflate : Nat → List Nat → List Nat) (crc : List Nat → Nat) 
 
 /-- what `Opener(path, 'wb')` builds for a `.gz` path: `DeterministicGzipFile(path, mode, level, mtime=0)`,
     which calls `GzipFile.__init__(filename='', …, fileobj=open(path, …), mtime=mtime)` -/
-def nibSink (path : List Nat) (level : Nat) (mtime : Nat := 0) : GzSink :=
-  { nameArg := some [], objName := path, mtimeArg := some mtime, level := level }
+def nibSink (path : List Nat) (level : Nat) (mtime : Nat := Gen.gzOpenMtimeDefault) : GzSink :=
+  { nameArg := some (if Gen.gzPassesPath then path else Gen.gzFilenameConst), objName := path,
+    mtimeArg := if Gen.gzPassesMtime then some mtime else none, level := level }
 
 /-- `gzip.GzipFile(path, 'wb', level)` / `gzip.open(path, 'wb', level)` — the sink nibabel does NOT use -/
 def plainSink (path : List Nat) (level : Nat) : GzSink :=
